@@ -10,6 +10,8 @@ import (
 	"go.mongodb.org/mongo-driver/mongo"
 	"go.mongodb.org/mongo-driver/mongo/options"
 
+	"github.com/256dpi/lungo"
+
 	"verif/internal/e1"
 	"verif/internal/refmodel"
 	"verif/internal/world"
@@ -408,6 +410,55 @@ func pDistinct(db, coll, field string, filter bson.D) c01Pair {
 	}}
 }
 
+// pTxn is a whole session transaction as one call: two writes with reads of the transaction's own state in
+// between (they must see its earlier writes), committed or aborted. The model applies the writes directly.
+func pTxn(commit bool) c01Pair {
+	name := fmt.Sprintf("session{insert {_id:30,a:30}; count; update {a:30}->{b:\"t\"}; find; distinct a}+%s", map[bool]string{true: "commit", false: "abort"}[commit])
+	ins := bD("_id", int32(30), "a", int32(30))
+	flt, upd := bD("a", int32(30)), bD("$set", bD("b", "t"))
+	return c01Pair{e1.Call{Name: name, Do: func(w *world.World) string {
+		sess, err := w.Client.StartSession()
+		if err != nil {
+			return "err"
+		}
+		defer sess.EndSession(w.Ctx)
+		if err := sess.StartTransaction(); err != nil {
+			return "err"
+		}
+		var obs []string
+		_ = lungo.WithSession(w.Ctx, sess, func(sc lungo.ISessionContext) error {
+			outer := w.Ctx
+			w.Ctx = sc
+			defer func() { w.Ctx = outer }()
+			obs = append(obs, cInsertOne("d", "c", ins).Do(w))
+			obs = append(obs, pCount("d", "c", bD(), 0, 0).real.Do(w))
+			obs = append(obs, cUpdate("d", "c", true, flt, upd, false).Do(w))
+			obs = append(obs, pFind("d", "c", bD("a", bD("$gte", int32(2))), bD("_id", int32(-1)), nil, 0, 0).real.Do(w))
+			obs = append(obs, pDistinct("d", "c", "a", bD()).real.Do(w))
+			return nil
+		})
+		if commit {
+			obs = append(obs, world.ErrClass(sess.CommitTransaction(w.Ctx)))
+		} else {
+			obs = append(obs, world.ErrClass(sess.AbortTransaction(w.Ctx)))
+		}
+		return strings.Join(obs, " | ")
+	}}, func(m *refmodel.DB) string {
+		work := m
+		if !commit {
+			work = m.Clone()
+		}
+		var obs []string
+		obs = append(obs, pInsertOne("d", "c", ins).model(work))
+		obs = append(obs, pCount("d", "c", bD(), 0, 0).model(work))
+		obs = append(obs, pUpdate("d", "c", true, flt, upd, false).model(work))
+		obs = append(obs, pFind("d", "c", bD("a", bD("$gte", int32(2))), bD("_id", int32(-1)), nil, 0, 0).model(work))
+		obs = append(obs, pDistinct("d", "c", "a", bD()).model(work))
+		obs = append(obs, "ok")
+		return strings.Join(obs, " | ")
+	}}
+}
+
 func pListColls(db string) c01Pair {
 	return c01Pair{e1.Call{Name: db + ".ListCollectionNames()", Do: func(w *world.World) string {
 		names, err := w.Client.Database(db).ListCollectionNames(w.Ctx, bson.D{})
@@ -563,6 +614,7 @@ func c01Alphabet(full bool) []c01Pair {
 		pDropIndex("d", "c", "a_1"), pDropIndex("d", "c", "*"), pListIndexes("d", "c"),
 		pDropColl("d", "c"), pDropDB("d"), pCreateColl("d", "c"), pListColls("d"), pListDBs(),
 		pInsertOne("d", "e", bD("_id", i(1), "a", i(1))), pFind("d", "e", bD(), nil, nil, 0, 0),
+		pTxn(true), pTxn(false),
 	}
 	_ = full
 	return ps
@@ -576,9 +628,11 @@ func init() {
 		for _, p := range pairs {
 			alpha = append(alpha, p.call())
 		}
-		depth := 4
+		// quick: all sequences <= 3 from the empty database and <= 3 from each non-initial start state;
+		// thorough: <= 5 and <= 4
+		depth, seedDepth := 3, 3
 		if !c.Quick() {
-			depth = 5
+			depth, seedDepth = 5, 4
 		}
 		var compared, stateChecks int64
 		var mu sync.Mutex
@@ -651,7 +705,7 @@ func init() {
 		for _, seed := range seeds {
 			seed := seed
 			sc := cfg
-			sc.Depth = depth - 1
+			sc.Depth = seedDepth
 			sc.New = func() *world.World {
 				w := cfg.New()
 				for _, k := range seed {
